@@ -267,6 +267,21 @@ theorem C18_terminates {S S' : Sys} {sched : List (Nat × Nat × Nat)} {i : Nat}
     simp at hlen
     omega
 
+/-! ## The table against the code, in both directions
+
+  `C18_observed_edges_sound` (above) is the direction "what the code does is allowed by the table".  The other direction
+  — "what the table says is done by the code" — is what justifies the ATOMIC ACTIONS and the LOCK OWNERSHIP fields of
+  Layer B: the harness runs every program of the table once and the driver requires every edge of `programEdges` in the
+  lock log (`L cover`).  The two facts below are what that run-time check rests on. -/
+
+/-- every nesting the table performs is allowed by the discipline -/
+theorem C18_program_edges_allowed : ∀ e ∈ programEdges, edgeAllowed e.1 e.2 false = true := by decide
+
+/-- the nestings Layer B's atomic actions and lock ownership rest on are nestings of the table (hence checked against
+    the lock log of the real crate on every run), and the table performs no other nesting -/
+theorem C18_atomicity_rests_on_program_edges :
+    (∀ e ∈ atomicityRests, e ∈ programEdges) ∧ (∀ e ∈ programEdges, e ∈ atomicityRests) := by decide
+
 /-! ## Non-vacuity (`exampleSys`, `sampleThread`, `badSys`, `badUpSys` are defined in `Lemmas/Locks.lean`) -/
 
 open Cls Op Chan
